@@ -268,8 +268,10 @@ Accept(setup, s) ==
 (* revert: the system is what it was when the trial started (pre) *)
 Reject(setup, s, pre) ==
     LET ctx == setup.ctx
+        \* the calculator is told the restored configuration and given back the REMEMBERED results (which are those
+        \* of pre, or none at all when the simulation was rebuilt from a restart dictionary with a fresh calculator)
         s1 == [s EXCEPT !.atoms = pre.atoms, !.cell = pre.cell, !.cons = pre.cons,
-                        !.calcAtoms = Cfg(pre), !.calcRes = Cfg(pre)]
+                        !.calcAtoms = Cfg(pre), !.calcRes = s.lastRes]
     IN IF ctx = "exch" THEN NoPending(s1) ELSE s1
 
 (* a falsy move: the trial is recorded as not attempted, nothing changes *)
@@ -297,7 +299,13 @@ C04_Own(s) ==
     /\ s.usable
 
 (* reporting the current energy costs no recomputation: the cache describes the current atoms *)
-C04_NoRecompute(s) == s.calcAtoms = Cfg(s) /\ s.calcRes = Cfg(s)
+\* (a simulation rebuilt from its restart dictionary with a fresh calculator has no results to give back until its
+\*  first acceptance: lastRes = NoCfg; nothing was computed, so nothing is RE-computed)
+C04_NoRecompute(s) == s.lastRes = NoCfg \/ (s.calcAtoms = Cfg(s) /\ s.calcRes = Cfg(s))
+
+(* Restart: to_dict -> from_dict -> fresh calculator.  Everything the simulation remembers survives; the calculator
+   knows nothing. *)
+Restarted(s) == [s EXCEPT !.lastRes = NoCfg, !.calcAtoms = NoCfg, !.calcRes = NoCfg]
 
 C05_Aligned(s) == \A m \in DOMAIN s.labels : Len(s.labels[m]) = Len(s.atoms)
 
